@@ -389,23 +389,23 @@ func (ei *resourceInformer) handleWatchEvent(object interface{}, eventType kemty
 			Objects:     []kemtypes.ObjectAndFilterResult{*objFilterRes},
 		}
 
-		// fix race with enableKubeEventCb.
-		eventCbEnabled := false
+		// fix race with enableKubeEventCb: check the flag and save the event
+		// in the buffer under one lock, so the event is either flushed by
+		// enableKubeEventCb or passed to the callback directly.
 		ei.eventBufLock.Lock()
-		eventCbEnabled = ei.eventCbEnabled
-		ei.eventBufLock.Unlock()
-
-		if eventCbEnabled {
-			// Pass event info to callback.
-			ei.putEvent(kubeEvent)
-		} else {
-			ei.eventBufLock.Lock()
+		eventCbEnabled := ei.eventCbEnabled
+		if !eventCbEnabled {
 			// Save event in buffer until the callback is enabled.
 			if ei.eventBuf == nil {
 				ei.eventBuf = make([]kemtypes.KubeEvent, 0)
 			}
 			ei.eventBuf = append(ei.eventBuf, kubeEvent)
-			ei.eventBufLock.Unlock()
+		}
+		ei.eventBufLock.Unlock()
+
+		if eventCbEnabled {
+			// Pass event info to callback.
+			ei.putEvent(kubeEvent)
 		}
 	}
 }
